@@ -2135,8 +2135,8 @@ func lcSpecs(ctx *Ctx, dry lcDry) []string {
 		}
 		// (f) a write error while a second caller is waiting: the write loop held at cli.write.reported (n = 0, directed);
 		// fallbacks that open the window from outside: the context's mutex held (n = 1), Err() polled (n > 1)
-		for _, kind := range []string{"hreset", "short", "reset", "late"} {
-			for i := 0; i < 2; i++ {
+		for _, kind := range []string{"hreset", "late"} { // the read side stays healthy: only the write loop terminates
+			for i := 0; i < 3; i++ {
 				add(&lcSpec{fam: "win", n: 0, pt: "-", srv: "-", next: "-", seed: seed, faults: []*lcFault{{dir: 'w', conn: 0, k: w0, kind: kind}}})
 			}
 		}
